@@ -76,6 +76,8 @@ pub struct Common {
     pub rx_bytes: u64,
     /// stream ids a createStream result mentioned in this node's input (client) / output (server)
     pub known_sids: Vec<u32>,
+    /// messages the input tap completed in the most recent handle_input call
+    pub last_in: Vec<RefMsg>,
 }
 
 impl Common {
@@ -96,6 +98,7 @@ impl Common {
             calls: 0,
             rx_bytes: 0,
             known_sids: Vec::new(),
+            last_in: Vec::new(),
         }
     }
 
@@ -133,12 +136,14 @@ impl Common {
     pub fn tap_input(&mut self, seg: &[u8]) -> Vec<(RefMsg, u64)> {
         let start = self.in_offset;
         self.in_offset += seg.len() as u64;
+        self.last_in.clear();
         if self.in_tap_failed {
             return Vec::new();
         }
         match self.in_tap.feed(seg) {
             Ok(v) => {
                 let ends = self.in_tap.last_ends.clone();
+                self.last_in = v.clone();
                 v.into_iter().zip(ends.into_iter()).map(|(m, e)| (m, e.saturating_sub(start))).collect()
             }
             Err(_) => {
@@ -184,32 +189,44 @@ impl Common {
     }
 }
 
-fn split_server(results: Vec<ServerSessionResult>) -> (Vec<Packet>, Vec<ServerSessionEvent>, usize) {
+fn split_server(results: Vec<ServerSessionResult>) -> (Vec<Packet>, Vec<ServerSessionEvent>, Vec<u8>) {
     let mut packets = Vec::new();
     let mut events = Vec::new();
-    let mut unhandled = 0;
+    let mut order = Vec::new();
     for r in results {
         match r {
-            ServerSessionResult::OutboundResponse(p) => packets.push(p),
-            ServerSessionResult::RaisedEvent(e) => events.push(e),
-            ServerSessionResult::UnhandleableMessageReceived(_) => unhandled += 1,
+            ServerSessionResult::OutboundResponse(p) => {
+                packets.push(p);
+                order.push(0);
+            }
+            ServerSessionResult::RaisedEvent(e) => {
+                events.push(e);
+                order.push(1);
+            }
+            ServerSessionResult::UnhandleableMessageReceived(_) => {}
         }
     }
-    (packets, events, unhandled)
+    (packets, events, order)
 }
 
-fn split_client(results: Vec<ClientSessionResult>) -> (Vec<Packet>, Vec<ClientSessionEvent>, usize) {
+fn split_client(results: Vec<ClientSessionResult>) -> (Vec<Packet>, Vec<ClientSessionEvent>, Vec<u8>) {
     let mut packets = Vec::new();
     let mut events = Vec::new();
-    let mut unhandled = 0;
+    let mut order = Vec::new();
     for r in results {
         match r {
-            ClientSessionResult::OutboundResponse(p) => packets.push(p),
-            ClientSessionResult::RaisedEvent(e) => events.push(e),
-            ClientSessionResult::UnhandleableMessageReceived(_) => unhandled += 1,
+            ClientSessionResult::OutboundResponse(p) => {
+                packets.push(p);
+                order.push(0);
+            }
+            ClientSessionResult::RaisedEvent(e) => {
+                events.push(e);
+                order.push(1);
+            }
+            ClientSessionResult::UnhandleableMessageReceived(_) => {}
         }
     }
-    (packets, events, unhandled)
+    (packets, events, order)
 }
 
 pub struct CallOut<E> {
@@ -217,11 +234,13 @@ pub struct CallOut<E> {
     pub events: Vec<E>,
     pub decoded: Vec<RefMsg>,
     pub in_msgs: Vec<(RefMsg, u64)>,
+    /// production order of the results: 0 = packet, 1 = event
+    pub order: Vec<u8>,
 }
 
 impl<E> CallOut<E> {
     pub fn empty() -> CallOut<E> {
-        CallOut { wire: Vec::new(), events: Vec::new(), decoded: Vec::new(), in_msgs: Vec::new() }
+        CallOut { wire: Vec::new(), events: Vec::new(), decoded: Vec::new(), in_msgs: Vec::new(), order: Vec::new() }
     }
 }
 
@@ -260,7 +279,7 @@ impl SrvNode {
                 Ok(Err(e))
             }
             Ok(results) => {
-                let (packets, events, _) = split_server(results);
+                let (packets, events, order) = split_server(results);
                 let wire: Vec<Vec<u8>> = packets.iter().map(|p| p.bytes.clone()).collect();
                 let mut input_msids: Vec<u32> = in_msgs.iter().map(|(m, _)| m.msid).collect();
                 input_msids.push(0);
@@ -278,7 +297,7 @@ impl SrvNode {
                     }
                 }
                 self.c.ack_step(ctx, seg.len(), &decoded, &in_msgs)?;
-                Ok(Ok(CallOut { wire, events, decoded, in_msgs }))
+                Ok(Ok(CallOut { wire, events, decoded, in_msgs, order }))
             }
         }
     }
@@ -293,10 +312,10 @@ impl SrvNode {
         self.c.set_clock(ctx);
         let sess = self.sess.as_mut().unwrap();
         let results = f(sess)?;
-        let (packets, events, _) = split_server(results);
+        let (packets, events, order) = split_server(results);
         let wire: Vec<Vec<u8>> = packets.iter().map(|p| p.bytes.clone()).collect();
         let decoded = self.c.record(ctx, packets, want, &[]);
-        Ok(CallOut { wire, events, decoded, in_msgs: Vec::new() })
+        Ok(CallOut { wire, events, decoded, in_msgs: Vec::new(), order })
     }
 
     /// An application call returning one packet.
@@ -311,7 +330,7 @@ impl SrvNode {
         let p = f(sess)?;
         let wire = vec![p.bytes.clone()];
         let decoded = self.c.record(ctx, vec![p], &|_| want.clone(), &[]);
-        Ok(CallOut { wire, events: Vec::new(), decoded, in_msgs: Vec::new() })
+        Ok(CallOut { wire, events: Vec::new(), decoded, in_msgs: Vec::new(), order: vec![0] })
     }
 }
 
@@ -351,14 +370,14 @@ impl CliNode {
                 Ok(Err(e))
             }
             Ok(results) => {
-                let (packets, events, _) = split_client(results);
+                let (packets, events, order) = split_client(results);
                 let wire: Vec<Vec<u8>> = packets.iter().map(|p| p.bytes.clone()).collect();
                 let mut input_msids: Vec<u32> = in_msgs.iter().map(|(m, _)| m.msid).collect();
                 input_msids.push(0);
                 input_msids.extend(self.c.known_sids.iter().copied());
                 let decoded = self.c.record(ctx, packets, &|_| Want::Reaction, &input_msids);
                 self.c.ack_step(ctx, seg.len(), &decoded, &in_msgs)?;
-                Ok(Ok(CallOut { wire, events, decoded, in_msgs }))
+                Ok(Ok(CallOut { wire, events, decoded, in_msgs, order }))
             }
         }
     }
@@ -371,10 +390,10 @@ impl CliNode {
     ) -> Result<CallOut<ClientSessionEvent>, ClientSessionError> {
         self.c.set_clock(ctx);
         let r = f(&mut self.sess)?;
-        let (packets, events, _) = split_client(vec![r]);
+        let (packets, events, order) = split_client(vec![r]);
         let wire: Vec<Vec<u8>> = packets.iter().map(|p| p.bytes.clone()).collect();
         let decoded = self.c.record(ctx, packets, &|_| want.clone(), &[]);
-        Ok(CallOut { wire, events, decoded, in_msgs: Vec::new() })
+        Ok(CallOut { wire, events, decoded, in_msgs: Vec::new(), order })
     }
 
     pub fn app_results(
@@ -385,10 +404,10 @@ impl CliNode {
     ) -> Result<CallOut<ClientSessionEvent>, ClientSessionError> {
         self.c.set_clock(ctx);
         let r = f(&mut self.sess)?;
-        let (packets, events, _) = split_client(r);
+        let (packets, events, order) = split_client(r);
         let wire: Vec<Vec<u8>> = packets.iter().map(|p| p.bytes.clone()).collect();
         let decoded = self.c.record(ctx, packets, &|_| want.clone(), &[]);
-        Ok(CallOut { wire, events, decoded, in_msgs: Vec::new() })
+        Ok(CallOut { wire, events, decoded, in_msgs: Vec::new(), order })
     }
 
     pub fn app_packet(
@@ -401,6 +420,6 @@ impl CliNode {
         let p = f(&mut self.sess)?;
         let wire = vec![p.bytes.clone()];
         let decoded = self.c.record(ctx, vec![p], &|_| want.clone(), &[]);
-        Ok(CallOut { wire, events: Vec::new(), decoded, in_msgs: Vec::new() })
+        Ok(CallOut { wire, events: Vec::new(), decoded, in_msgs: Vec::new(), order: vec![0] })
     }
 }
